@@ -31,6 +31,12 @@ def gen_case(case):
                 f'<use href="#u{g}" fill="#{r.randint(0, 0xFFFFFF):06x}"/><use href="#u{g}" x="{s * 0.8:.2f}" y="{s * 0.5:.2f}" fill="#{r.randint(0, 0xFFFFFF):06x}" opacity="0.6"/></g>'
             )
             t = t.replace("</svg>", extra + "</svg>")
+        if r.random() < 0.35:
+            # a nested <svg> viewport: its own x/y/width/height/viewBox scale and clip what it contains
+            vb = m["viewBox"]
+            nx, ny, nw, nh = vb[0] + vb[2] * r.uniform(0.05, 0.5), vb[1] + vb[3] * r.uniform(0.05, 0.5), vb[2] * r.uniform(0.2, 0.45), vb[3] * r.uniform(0.2, 0.45)
+            inner = f'<rect x="1" y="1" width="6" height="5" fill="#{r.randint(0, 0xFFFFFF):06x}"/><circle cx="8" cy="8" r="4" fill="#{r.randint(0, 0xFFFFFF):06x}"/>'
+            t = t.replace("</svg>", f'<svg x="{nx:.2f}" y="{ny:.2f}" width="{nw:.2f}" height="{nh:.2f}" viewBox="0 0 {r.choice([10, 10, 20])} 10">{inner}</svg></svg>')
         if r.random() < 0.5:
             t = t.replace("<svg ", f'<svg width="{r.choice([64, 100, 512])}" height="{r.choice([64, 100, 300])}" ', 1)
         if r.random() < 0.2:
